@@ -27,7 +27,8 @@ abbrev stopCh : Nat := Gen.pipeCh_stopCh
 abbrev resultCh : Nat := Gen.pipeCh_resultCh
 abbrev resultChErr : Nat := Gen.pipeCh_resultCh_err
 
-/-- the kinds of the source with the leader's channels made `external` and `resultCh` clamped to `cap` (+ 1 for the error half) -/
+/-- the kinds of the source with the leader's channels made `external` and `resultCh` clamped to `cap` (+ 1 for the error half);
+the two halves of each `drained` keep the capacity 1 of the source -/
 def kinds (cap : Nat) : List Kind :=
   (((Gen.pipeKinds.set 0 Kind.external).set replUpdateCh Kind.external).set resultCh (Kind.buffered cap)).set resultChErr
     (Kind.buffered 1)
@@ -83,14 +84,19 @@ def allDone (s : State) : Bool :=
 (`C15Chan.notifyLdr_returns_once_stopped`: it does, by draining `replUpdateCh` or by `close(r.stopCh)`) -/
 def writerWaitsForLeader (s : State) : Bool := inNotifyLdr pipeSys s writer && !s.isClosed rStopCh
 
-/-! ## what is evaluated over the 2621 reachable states of `pipeSys` -/
+/-! ## what is evaluated over the 2815 reachable states of `pipeSys` -/
+
+/-- the writer stands just after `writeAppendEntriesReq` returned nil: its request is on the wire and will be answered -/
+def writerHasWritten (s : State) : Bool := memNat (s.pc writer) Gen.pipeWriter_at_written
 
 def inv (s : State) : Bool :=
   noPanic s &&
   (!halted pipeSys s writer || (s.isClosed resultCh && s.isClosed resultChErr)) &&
   (!halted pipeSys s writer || halted pipeSys s reader || inNotifyLdr pipeSys s reader || enabledStrict pipeSys s reader ||
     live pipeSys s drainerStop || live pipeSys s drainerStale) &&
-  (!Nat.beq (s.pc reader) Gen.pipeReader_next || onExitPath pipeSys s writer)
+  (!readerLeft s || onExitPath pipeSys s writer) &&
+  (!writerHasWritten s || (!readerLeft s && !s.isClosed resultCh)) &&
+  (!readerLeft s || !memNat (s.pc writer) Gen.pipeWriter_at_write)
 
 /-- the goroutines of the episode can, on their own, bring the writer to its return. (Since the repair of finding F21 a
 request that was written is ALWAYS reported on `resultCh`, also when the pipeline is being stopped — so the writer may have to wait
@@ -100,20 +106,10 @@ def writerCanFinish (s : State) : Bool := canReach pipeSys 300 goroutines (halte
 /-- the goroutines of the episode can bring it to its end on their own -/
 def episodeCanFinish (s : State) : Bool := canReach pipeSys 300 goroutines allDone s
 
-/-- no drainer goroutine has delivered its result yet. (After a drainer delivered, the skeleton cannot tell a clean drain — the
-value on `drained` is nil, `resultCh` was closed, the writer HAS finished — from a failed one — the repaired code then waits in
-`for range resultCh {}`: the value is erased, and the skeleton also takes the "nil" branch after an error. Those artefact states
-are excluded from the can-finish claims; see `RaftGen/Notes/PipeObservations.lean`.) -/
-def noDrainerDone (s : State) : Bool := !halted pipeSys s drainerStop && !halted pipeSys s drainerStale
-
-/-- the can-finish claims, of every reachable state in which the reader is still in the episode and no drainer has delivered:
-the writer once the pipeline is stopped, the whole episode once the leader closed `r.stopCh` -/
+/-- the can-finish claims, of EVERY reachable state: the whole episode once the leader closed `r.stopCh` (then in particular the
+writer: one search serves both claims), otherwise the writer once the pipeline is stopped (unless only the leader can release it) -/
 def alwaysLive (s : State) : Bool :=
-  (!(s.isClosed stopCh && !readerLeft s && noDrainerDone s && !writerWaitsForLeader s) || writerCanFinish s) &&
-  (!(s.isClosed rStopCh && !readerLeft s && noDrainerDone s) || episodeCanFinish s)
-
-/-- the reader has returned from `replicate()` and the writer is about to execute / executing `writeAppendEntriesReq` -/
-def writerOutlivesReader (s : State) : Bool :=
-  Nat.beq (s.pc reader) Gen.pipeReader_ret && memNat (s.pc writer) Gen.pipeWriter_at_write
+  bif s.isClosed rStopCh then episodeCanFinish s
+  else (!(s.isClosed stopCh && !writerWaitsForLeader s) || writerCanFinish s)
 
 end Raft.C15Pipe
